@@ -595,8 +595,9 @@ class Dataset(AbstractDataset, dict, OpMixin, GetSetDelAttrMixin):
                 raise TypeError("mapper must be callable")
             iterkeys = [(old, mapper(old)) for old in ds.dims]
 
-        for old, new in iterkeys:
-            ds.axes[old].name = new
+        # look up all axes before renaming any (the mapping may permute names)
+        for ax, new in [(ds.axes[old], new) for old, new in iterkeys]:
+            ax.name = new
 
         if not inplace:
             return ds
